@@ -477,7 +477,37 @@ def harness_asan():
 
 
 @st.composite
+def der_edge_session(draw):
+    """signature checks on byte strings shaped like DER signatures whose LENGTH FIELDS sit on the boundaries of the buffer (the encoding test indexes the
+    signature by those fields): total size 9..74, R length = size-8 .. size-3 and other edge values, S length consistent, one off, or an edge value"""
+    size = draw(st.sampled_from([9, 9, 10, 11, 33, 40, 71, 72, 73, 73, 73, 74]))
+    lenR = draw(st.sampled_from([size - 8, size - 7, size - 7, size - 6, size - 6, size - 5, size - 5, size - 5, size - 4, size - 4, size - 3, 0, 1, 33, 0x80, 0xff])) & 0xff
+    b = bytearray([1] * size)
+    b[0] = draw(st.sampled_from([0x30] * 9 + [0x31]))
+    b[1] = (size - 3 + draw(st.sampled_from([0] * 8 + [1, -1]))) & 0xff
+    b[2] = 2
+    b[3] = lenR
+    if 4 + lenR < size:
+        b[4 + lenR] = draw(st.sampled_from([2, 2, 2, 3]))
+    if 5 + lenR < size:
+        b[5 + lenR] = draw(st.sampled_from([size - lenR - 7, size - lenR - 7, size - lenR - 6, size - lenR - 8, 0, 1, 0x80])) & 0xff
+    b[-1] = draw(st.sampled_from([1, 1, 2, 3, 0x81, 0]))
+    key = bytes([2]) + bytes([0xaa] * 32)
+    how = draw(st.integers(0, 2))
+    if how == 0:
+        script = G.push(bytes(b), 1) + G.push(key, 1) + b'\xac'
+    elif how == 1:
+        script = b'\x00' + G.push(bytes(b), 1) + b'\x51' + G.push(key, 1) + b'\x51\xae'
+    else:
+        script = G.push(bytes(b), 1) + G.push(key, 1) + b'\xad\x51'
+    flags = draw(st.sampled_from([SS.STD, SS.STD, SS.STD, F['DERSIG'], F['STRICTENC'], F['LOW_S'], F['DERSIG'] | F['NULLFAIL'], 0]))
+    return dict(kind='plain-dersig', kw=dict(script=script, stack=[], flags=flags, sv=draw(st.sampled_from([R.BASE, R.WITNESS_V0]))))
+
+
+@st.composite
 def asan_session_case(draw):
+    if draw(st.integers(0, 3)) == 0:
+        return dict(sess=draw(der_edge_session()), cmds=['s'] * 6)
     sess = draw(st.one_of(SS.legacy_spend(), SS.legacy_spend(), SS.tapscript_spend(), SS.codesep_mock(), SS.multi_script(), repl_special(), SS.plain('ctrl')))
     cmds = []
     for _ in range(draw(st.integers(1, 5))):
